@@ -227,7 +227,7 @@ def main():
         }],
         'checks': checks,
         'not_applicable': na,
-        'notes': 'Deterministic simulation with fault injection; see DESIGN.md. Every check also fixes the local time zone from the seed, runs a short secondary pass under python -O, and runs 6% of its small worlds under an address space limit (RLIMIT_AS = size + 512 MiB). ./check <id> --tier quick|thorough; '
+        'notes': 'Deterministic simulation with fault injection; see DESIGN.md. Every check also fixes the local time zone from the seed, runs a short secondary pass under python -O -bb, and runs 6% of its small worlds under an address space limit (RLIMIT_AS = size + 512 MiB). ./check <id> --tier quick|thorough; '
                  'VERIF_SEED, VERIF_BUDGET_S, VERIF_WORKERS, VERIF_REPO are honoured. Exit 0 held / 1 VIOLATION / '
                  '2 HARNESS-ERROR.',
     }
